@@ -28,14 +28,16 @@ DIMS = OrderedDict([
     ("static", ["cubicfit", "generic"]),
     ("grid", ["g0", "g1", "g2", "g3", "g4", "g5"]),
     ("cwd", ["neutral", "decoy-inputs"]),
-    ("rows", ["given", "reversed", "rotated"]),      # row order of the static table (lattice rows move with their volumes)
-    ("weights", ["increasing", "equal", "scaled"]),
+    ("rows", ["given", "reversed", "rotated"]),
+    ("nm", [1, 2, 4]),                          # formula units per cell (header field of the phonon file)      # row order of the static table (lattice rows move with their volumes)
+    ("weights", ["increasing", "equal", "scaled", "int"]),
     ("poly_degree", [2, 1]),
 ])
 
 
 def spec_of(case):
     s = {k: case[k] for k in ("nv", "lattice", "system", "compset", "static", "weights", "poly_degree")}
+    s["nm"] = case.get("nm", 1)
     s["nq"], s["na"] = case["shape"]
     s["qha"] = dict(GRIDS[case["grid"]])
     s["interpolator"], s["order"] = case.get("interpolator", "lsq_poly"), case.get("order", 3)
